@@ -5,9 +5,8 @@ HERE="$(cd "$(dirname "$0")" && pwd)"
 cd "$HERE"
 export PYTHONPATH="$HERE/harness${PYTHONPATH:+:$PYTHONPATH}" PYTHONDONTWRITEBYTECODE=1
 # regenerate Gen/* from /repo (tables, constants), then build everything
-/venv/bin/python -c "import common; common.regen_ops_index()"
-if [ -f harness/extract.py ]; then /venv/bin/python harness/extract.py; fi
+/venv/bin/python harness/regen_all.py > /dev/null
 cd lean
-lake build 2>&1 | tail -5
+lake build nssdriver $(ls NssVerif/Props/*.lean | sed 's#/#.#g; s#\.lean$##') 2>&1 | tail -5
 test -x .lake/build/bin/nssdriver
 echo "setup ok"
